@@ -3536,8 +3536,65 @@ fn known_ops(_case: usize) -> Vec<String> {
     ]
 }
 
+/// C15 / C08 with a reliable message of MORE than 65 536 slices (seeded C15y: the sent-packet record keeps the slice index in
+/// 16 bits, the acknowledgement of the packet carrying slice 65 536 is applied to slice 0 and slice 65 536 is retransmitted
+/// for ever). Implementation only (78.6 MB do not travel through the line protocol or the list-based model): one ordered
+/// channel with a 100 MB budget, 1 000 slices per tick, every datagram delivered and acknowledged in the same tick, then four
+/// ticks of 200 ms (two resend periods and more) in which nothing but ack packets may be emitted. The delivery indices are
+/// those of the unchanged tree (tick 0: 1 000 datagrams, then 1 000 slices + 1 ack packet per tick).
+fn slice_wrap_ops(_case: usize) -> Vec<String> {
+    let c = vec![Chan { id: 0, kind: "RO", max_mem: 100 * 1024 * 1024, resend_us: 300_000 }];
+    let mut ops: Vec<String> = vec![cfg_line(1_200_000, &c, &c), "cli 0".into(), "add 100".into(), "setc 0".into()];
+    ops.push(format!("sendfill c0 0 {} 7", 65_536 * 1200 + 1));
+    let mut next = 0usize; // datagrams of c0 handed over so far
+    let mut acks = 0usize; // datagrams of s100 handed over so far
+    for t in 0..66 {
+        ops.push("upd c0 1000".into());
+        ops.push("upd srv 1000".into());
+        ops.push("flush c0".into());
+        let n = if t == 0 { 1000 } else if t < 65 { 1001 } else { 538 };
+        for k in next..next + n {
+            ops.push(format!("dlv s100 c0 {}", k));
+        }
+        next += n;
+        ops.push("flush s100".into());
+        ops.push(format!("dlv c0 s100 {}", acks));
+        acks += 1;
+    }
+    ops.push("recvn s100 0 2".into());
+    ops.push("stat c0".into());
+    ops.push("stat s100".into());
+    for _ in 0..4 {
+        ops.push("upd c0 200000".into());
+        ops.push("upd srv 200000".into());
+        ops.push("flush c0".into());
+        for k in next..next + 3 {
+            ops.push(format!("dlv s100 c0 {}", k));
+        }
+        next += 1;
+        ops.push("flush s100".into());
+        ops.push(format!("dlv c0 s100 {}", acks));
+        acks += 1;
+    }
+    ops.push("avail c0 0".into());
+    ops.push("stat c0".into());
+    ops.push("stat s100".into());
+    ops
+}
+
 pub fn profiles() -> Vec<Profile> {
     vec![Profile {
+        name: "rn-slice-wrap",
+        props: &["C15", "C08"],
+        cases: |_| 1,
+        new_world,
+        script: script_none,
+        nontrivial: |_| true,
+        // never shrunk: every re-execution moves 80 MB through the pair again
+        keep: |ops| ops.len(),
+        fixed: Some(slice_wrap_ops),
+    },
+    Profile {
         name: "rn-known",
         props: &["C16"],
         cases: |_| 1,
@@ -5987,7 +6044,7 @@ pub fn oracles() -> Vec<Oracle> {
         Oracle { prop: "C12", name: "server-queries", engines: &["rn-api"], check: oracle_server_queries },
         Oracle { prop: "C11", name: "server-queries", engines: &["rn-api"], check: oracle_server_queries },
         // rn-long is not an engine here / below: one quick case costs 6 s in the model, C14/C15/C11 do not list it
-        Oracle { prop: "C15", name: "never-after-ack-processed", engines: &["rn-pair", "rn-timing", "rn-acks", "rn-tight", "rn-unrel", "rn-volume"], check: oracle_c15_acked },
+        Oracle { prop: "C15", name: "never-after-ack-processed", engines: &["rn-pair", "rn-timing", "rn-acks", "rn-tight", "rn-unrel", "rn-volume", "rn-slice-wrap"], check: oracle_c15_acked },
         Oracle { prop: "C14", name: "unreliable-work-conserving", engines: &["rn-unrel", "rn-pair"], check: oracle_unrel_work_conserving },
         Oracle { prop: "C11", name: "unreliable-work-conserving", engines: &["rn-unrel", "rn-pair"], check: oracle_unrel_work_conserving },
         Oracle { prop: "C09", name: "unreliable-in-budget", engines: &["rn-unrel"], check: oracle_unrel_budget },
@@ -6006,7 +6063,7 @@ pub fn oracles() -> Vec<Oracle> {
         Oracle { prop: "C14", name: "reliable-waits-unordered", engines: &["rn-pair-smallbudget"], check: oracle_c02 },
         Oracle { prop: "C15", name: "retransmitted-until-obtained-ordered", engines: &["rn-timing-overflow", "rn-pair-smallbudget"], check: oracle_c01 },
         Oracle { prop: "C15", name: "retransmitted-until-obtained-unordered", engines: &["rn-timing-overflow", "rn-pair-smallbudget"], check: oracle_c02 },
-        Oracle { prop: "C08", name: "release-after-delivery", engines: &["rn-pair", "rn-timing", "rn-long", "rn-acks", "rn-volume", "rn-multi-ackgap"], check: oracle_c08 },
+        Oracle { prop: "C08", name: "release-after-delivery", engines: &["rn-pair", "rn-timing", "rn-long", "rn-acks", "rn-volume", "rn-multi-ackgap", "rn-slice-wrap"], check: oracle_c08 },
         Oracle { prop: "C11", name: "isolation-ordered", engines: &["rn-multi", "rn-volume-mixed"], check: oracle_c01 },
         Oracle { prop: "C11", name: "isolation-unordered", engines: &["rn-multi", "rn-volume-mixed"], check: oracle_c02 },
     ]
